@@ -192,13 +192,15 @@ def check_tld(col, rnd, tier):
                 col.violation("tld-case-punycode-insensitive", "ural.tld.is_valid_tld", v, list(r), True)
             # the other labels are irrelevant, whatever they look like (raw non-ASCII, punycode that does not decode, IDNA-2008-only punycode)
             for host in ("example." + v.lstrip("."), "a.b." + v.lstrip("."), "http://x." + v.lstrip(".") + "/p.notatld",
-                         "münchen." + v.lstrip("."), "xn--zz." + v.lstrip("."), "shop.xn--strae-oqa." + v.lstrip(".")):
+                         "münchen." + v.lstrip("."), "xn--zz." + v.lstrip("."), "shop.xn--strae-oqa." + v.lstrip("."),
+                         # fully-qualified spelling: the root dot closes the last label, it is no label
+                         "example." + v.lstrip(".") + ".", "http://x." + v.lstrip(".") + "./p"):
                 r = call(tld.has_valid_tld, host)
                 col.count("has_valid_tld")
                 if r != ("ok", True):
                     col.violation("has-valid-tld-last-label-only", "ural.tld.has_valid_tld", host, list(r), True)
     for bad in ("notatld", "zzzzq", "c0m", "example"):
-        for host in (bad, "com." + bad, "http://example.com." + bad + "/x.com"):
+        for host in (bad, "com." + bad, "http://example.com." + bad + "/x.com", "com." + bad + "."):
             r = call(tld.has_valid_tld, host)
             col.count("has_valid_tld")
             if r != ("ok", bad in tld.TLD_SET):
